@@ -772,15 +772,17 @@ class Engine:
                 self.assign(s.target, tv, body)
         inner = Ctl()
         end = self.run_block(s.body, body, inner)
-        backs = list(inner.cont) + ([(s.end_lineno, end)] if end is not None else [])
-        for ln, x in backs:
+        conts = sorted(n.lineno for n in own_continues(s))
+        backs = [(ln, x, 'continue#%d' % (conts.index(ln) + 1) if ln in conts else 'continue@%d' % ln) for ln, x in inner.cont] \
+            + ([(s.end_lineno, end, 'end')] if end is not None else [])
+        for ln, x, blab in backs:
             extra = {}
             if it_name:
                 nxt = x.env[it_name] + 1 if isint(x.env.get(it_name)) else fint('i')
                 extra = {it_name: nxt, 'i_': nxt}
             for c in inv + inv_default:
                 v = self.eval_clause(c, x, fr.old, extra)
-                self.oblige(x, v, 'inv-preserve', c.label, c.tags, ln, site='loop%d' % ordinal, meta={'backedge_line': ln})
+                self.oblige(x, v, 'inv-preserve', c.label, c.tags, ln, site='loop%d.%s' % (ordinal, blab), meta={'backedge_line': ln})
         ctl.ret += inner.ret
         ctl.exc += inner.exc
         for ln, x in inner.brk:
@@ -1088,6 +1090,43 @@ class StarArgs:
 
 class ArityError(Exception):
     pass
+
+
+def own_continues(loop):
+    """continue statements belonging to this loop (not to nested loops)"""
+    out = []
+
+    def walk(stmts):
+        for st in stmts:
+            if isinstance(st, ast.Continue):
+                out.append(st)
+            elif isinstance(st, (ast.While, ast.For, ast.FunctionDef)):
+                continue
+            else:
+                for f in ('body', 'orelse', 'handlers', 'finalbody'):
+                    sub = getattr(st, f, None)
+                    if sub:
+                        walk([h for h in sub] if f != 'handlers' else [x for h in sub for x in h.body])
+    walk(loop.body)
+    return out
+
+
+def own_breaks(loop):
+    out = []
+
+    def walk(stmts):
+        for st in stmts:
+            if isinstance(st, ast.Break):
+                out.append(st)
+            elif isinstance(st, (ast.While, ast.For, ast.FunctionDef)):
+                continue
+            else:
+                for f in ('body', 'orelse', 'handlers', 'finalbody'):
+                    sub = getattr(st, f, None)
+                    if sub:
+                        walk([h for h in sub] if f != 'handlers' else [x for h in sub for x in h.body])
+    walk(loop.body)
+    return out
 
 
 def assigned_names(stmts):
